@@ -410,10 +410,49 @@ func runC17Race(w *World, p map[string]int) {
 			}
 			return false
 		}
+		nested := false
 		for i := 0; i < stepBudget && alive(); i++ {
 			en := w.S.Enabled()
 			if len(en) == 0 {
 				break
+			}
+			// a second request inside the first one: while the first is parked
+			// between two of its database reads (it holds no wallet-internal
+			// mutex there, see walletMutexHeld; at most the manager's read
+			// lock), a request that takes no write lock of the manager runs to
+			// completion. Key material the first one has unlocked, caches it
+			// has filled, are then met by another request's code.
+			// (both requests must be of the kind that takes at most the manager's
+			// read lock: a writer would wait for the parked reader, invisibly)
+			readSide := func(n string) bool {
+				switch n {
+				case "Wallets", "ExportWallet", "GetWalletMnemonic", "GetWalletBalance", "GetAddressBalance", "GetUtxo", "GetAddresses",
+					"AutoCreateTransaction", "CreateStakingTransaction", "CreateBindingTransaction", "SignRawTransaction",
+					"GetTransactionFee", "TxHistory", "GetStakingHistory", "GetBindingHistory", "ValidateAddress":
+					return true
+				}
+				return false
+			}
+			if !nested && readSide(names[0]) && strings.HasPrefix(gs[0].parked, "db.read") && w.S.Tape.Bool(30) {
+				nested = true
+				var second []apiCall
+				for _, c := range calls {
+					if readSide(c.name) {
+						second = append(second, c)
+					}
+				}
+				if len(second) > 0 {
+					f.mis = []int{0, 0, 0, 8}[w.S.Tape.Int(4)]
+					c2 := second[w.S.Tape.Int(len(second))]
+					_, fn2 := c2.make(f)
+					g2 := inst.Call(RoleClient, "api."+c2.name+"(inside "+names[0]+")", func() { fn2() })
+					if !w.S.RunSolo(g2, stepBudget) {
+						w.Violate("C17.stall", "request %s issued while %s was between two of its reads did not return: %v", c2.name, names[0], w.S.ParkedSummary())
+						return
+					}
+					w.Stat("probe.request_inside_request")
+					continue
+				}
 			}
 			// while the request sits inside a database transaction or between
 			// two of its reads, the followers get most of the steps
